@@ -75,13 +75,21 @@ class C05(Check):
         from wntr.network.controls import ValueCondition
 
         rng = ctx.rng
+        K.probe_mode()
+        for name, detail in K.PROBE_BROKEN:
+            broken.append(Broken("correspondence", name, detail))
         for k in range(6 if ctx.quick else 30):
             p = K.synthetic_tank(rng)
             wn, tank = K.make_real_tank(wntr, p)
             p = K.tank_params(tank)
             tid = B.new_tank(p)
             for c in K.synthetic_lvl_cases(rng, p, 20 if ctx.quick else 60):
-                rec = K.real_lvl(wntr, tank, c)
+                rec, err = K.safe_call(K.real_lvl, wntr, tank, c)
+                if err:
+                    ctx.count("direct-call-exception")
+                    if not any(b.name == "TankLevelCondition.evaluate (direct call)" for b in broken):
+                        broken.append(Broken("correspondence", "TankLevelCondition.evaluate (direct call)", "%s on %s tank=%s" % (err, c, p)))
+                    continue
                 ctx.case(("lvl", bool(p["curve"]), c["kind"], c["attr"], c["rel"], c["thr"], c["head"]))
                 ctx.count("lvl-direct:" + c["kind"])
 
